@@ -249,10 +249,25 @@ fn set_contract(set: &mut dyn CoordinateSet, n: usize, dim: usize, f32kind: bool
             assert!(same(r[3], c[3]), "C10.K.set.set_xyz.frame: set_xyz leaves epoch bit-identical");
         }
     }
+    // set_xyzt writes every dimension the container stores (the others are not the container's to keep)
+    {
+        let (p2, q2, s2, u2): (f64, f64, f64, f64) = (kani::any(), kani::any(), kani::any(), kani::any());
+        set.set_xyzt(i, p2, q2, s2, u2);
+        let r = set.get_coord(i);
+        assert!(same(r[0], st(p2)) && same(r[1], st(q2)), "C19.K.set.set_xyzt: writes x and y into every container");
+        if dim >= 3 && fixed_z.is_none() {
+            assert!(same(r[2], s2), "C19.K.set.set_xyzt: writes z into containers storing 3 or 4 dimensions");
+        }
+        if dim >= 4 && fixed_t.is_none() {
+            assert!(same(r[3], u2), "C19.K.set.set_xyzt: writes t into containers storing 4 dimensions");
+        }
+        let (x, y, z, t) = set.xyzt(i);
+        assert!(same(x, r[0]) && same(y, r[1]) && same(z, r[2]) && same(t, r[3]), "C19.K.set.xyzt: xyzt(i) agrees with get_coord(i) after set_xyzt");
+    }
     let after_j = set.get_coord(j);
     assert!(
         same(after_j[0], before_j[0]) && same(after_j[1], before_j[1]) && same(after_j[2], before_j[2]) && same(after_j[3], before_j[3]),
-        "C02.K.set.frame: set_xy/set_xyz(i) leave every other tuple bit-identical"
+        "C02.K.set.frame: set_xy/set_xyz/set_xyzt(i) leave every other tuple bit-identical"
     );
 }
 
